@@ -4,7 +4,8 @@ C10 — model of the forwarding goroutines of ONE subscription in `pkg/resource`
     bus listener channel ─▶ [excess stage] ─▶ forwarder ─▶ [PullID stage] ─▶ consumer
 
 * excess stage (only without backpressure): `minibus.DropExcess` (keeps the newest message) or
-  `mergeCollectionExcess` (a queue, one entry per id); it ALWAYS accepts input, offers its head when it
+  `mergeCollectionExcess` (a queue, one entry per id, changes of one id merged by `mergeChanges`: ADD then
+  REMOVE annihilate); it ALWAYS accepts input, offers its head when it
   holds something, and exits only when its input is closed (it never looks at the context).
 * forwarder: the goroutine of `Value.Pull` / `Collection.Pull`: offers its seed values first, then
   `for event := range in` ▸ filter ▸ `select { out <- change | <-ctx.Done() }`.  While it holds a message it
@@ -20,11 +21,32 @@ receiving.
 -/
 namespace ScVerif.C10
 
+/-- `types.ChangeType` of a `CollectionChange` (a `ValueChange` has none: `Value.Set` events are `update`) -/
+inductive Kind
+  | add | update | remove | replace
+deriving DecidableEq, Repr
+
 structure Msg where
   id : Nat
-  remove : Bool
+  kind : Kind
   tag : Nat
 deriving DecidableEq, Repr
+
+/-- the event is a REMOVE (`change.ChangeType == types.ChangeType_REMOVE`) -/
+def Msg.remove (m : Msg) : Bool := m.kind == .remove
+
+/-- `mergeChanges(a, b)` of `pkg/resource/backpressure.go` on the change types: the type of the merged change, or
+`none` when the two annihilate (`send = false`: an ADD that nobody has seen yet followed by the REMOVE of the same
+item).  The merged change carries `b`'s new value (here: its tag). -/
+def mergeKind : Kind → Kind → Option Kind
+  | .add, .remove => none
+  | .add, _ => some .add
+  | .update, .add => some .replace
+  | .update, k => some k
+  | .replace, .remove => some .remove
+  | .replace, _ => some .replace
+  | .remove, .remove => some .remove
+  | .remove, _ => some .replace
 
 structure PConfig where
   hasEx : Bool                 -- no backpressure: an excess stage sits behind the bus channel
@@ -56,8 +78,19 @@ def PConfig.outClosed (c : PConfig) : Bool := if c.hasPid then c.pidDone else c.
 def PConfig.allDone (c : PConfig) : Bool :=
   (!c.hasEx || c.exDone) && c.fwDone && (!c.hasPid || c.pidDone)
 
+/-- what the excess stage holds after receiving `m`.  `DropExcess`: just `m`.  `mergeCollectionExcess`: if a change
+of the same id is still queued it is taken out of the queue and merged with `m` (`mergeChanges`); the merged change
+goes to the BACK of the queue, or — ADD then REMOVE — nothing does. -/
+def mergeQ (q : List Msg) (m : Msg) : List Msg :=
+  match q.find? (fun x => x.id = m.id) with
+  | none => q ++ [m]
+  | some old =>
+    match mergeKind old.kind m.kind with
+    | none => q.filter (fun x => x.id ≠ m.id)
+    | some k => q.filter (fun x => x.id ≠ m.id) ++ [{ m with kind := k }]
+
 def exRecv (c : PConfig) (m : Msg) : PConfig :=
-  if c.exMerge then { c with exQ := c.exQ.filter (fun x => x.id ≠ m.id) ++ [m] } else { c with exQ := [m] }
+  if c.exMerge then { c with exQ := mergeQ c.exQ m } else { c with exQ := [m] }
 
 def fwRecv (c : PConfig) (m : Msg) : PConfig :=
   if c.keep m then { c with fwQ := [m] } else c
@@ -120,7 +153,7 @@ collection's id interceptor (`c.idInterceptor`; the identity when none is config
 and every event about it is published, under the intercepted id. -/
 
 /-- the event `Collection.Update(raw, …)` / `Collection.Delete(raw)` publishes on the bus -/
-def changeOf (icpt : Nat → Nat) (raw : Nat) (remove : Bool) (tag : Nat) : Msg := ⟨icpt raw, remove, tag⟩
+def changeOf (icpt : Nat → Nat) (raw : Nat) (kind : Kind) (tag : Nat) : Msg := ⟨icpt raw, kind, tag⟩
 
 /-- the id `Collection.PullID(ctx, raw)` compares the events of its inner `Pull` with -/
 def pullIDTarget (icpt : Nat → Nat) (raw : Nat) : Nat := icpt raw
